@@ -175,3 +175,11 @@ def fingerprint(r, clauses):
 def sample(r):
     return dict(data_bytes=len(r['data']), regions=r['bounds'], sections=[s['kind'] for s in r['sections']],
                 file_same=r['file_same'])
+
+
+def corrupt(r):
+    if not r['data']:
+        r['empty_out'] = False
+        return r
+    r['bounds'][0][1] += 1
+    return r
